@@ -90,6 +90,9 @@ func (s *c06Scn) validLayer(r *fw.Rand) *conc.Layer {
 // register registers callback id with the given token.
 func (s *c06Scn) register(id int, cfg *conc.Cfg, tok dials.CfgSerial[conc.Cfg]) dials.UnregisterCBFunc {
 	flag := &atomic.Bool{}
+	if reflect.ValueOf(tok).FieldByName("cfg").IsNil() {
+		cfg = nil // the zero token: no config came with it, whatever the script still holds in its variable
+	}
 	s.mu.Lock()
 	s.tokenCfg[id] = cfg
 	s.tokenSerial[id] = conc.SerialOf(tok)
@@ -144,11 +147,11 @@ func (s *c06Scn) judge(desc any) (sig string) {
 		case "err":
 			shape.WriteString("e")
 		case "register":
-			if s.tr.HandleID(d.Handle) >= 0 {
+			if d.ID >= 0 {
 				shape.WriteString("R")
 			}
 		case "unregister":
-			if s.tr.HandleID(d.Handle) >= 0 {
+			if d.ID >= 0 {
 				shape.WriteString("U")
 			}
 		}
@@ -210,7 +213,11 @@ func (s *c06Scn) judge(desc any) (sig string) {
 	// (C09 judges the flag); registered callbacks and the catch-up baseline are not affected by it
 	want, bad := conc.Predict(dq, s.tr, cfgBySerial, s.tokenCfg, true, true, func(d conc.DQ) bool { return d.Suppressed })
 	if bad != "" {
-		w.Violation(i, "announce-order", bad, desc)
+		key := "announce-order"
+		if strings.Contains(bad, "token whose config") {
+			key = "registration-token-changed-between-client-and-callback-goroutine"
+		}
+		w.Violation(i, key, bad, desc)
 		return ""
 	}
 	catch, skips := 0, 0
@@ -229,11 +236,11 @@ func (s *c06Scn) judge(desc any) (sig string) {
 		for _, d := range dq {
 			switch d.Kind {
 			case "register":
-				if id := s.tr.HandleID(d.Handle); id >= 0 {
+				if id := d.ID; id >= 0 {
 					lives = append(lives, lv{id, d.Serial})
 				}
 			case "unregister":
-				id := s.tr.HandleID(d.Handle)
+				id := d.ID
 				for k := range lives {
 					if lives[k].id == id {
 						lives = append(lives[:k:k], lives[k+1:]...)
@@ -635,7 +642,7 @@ func c06RegisterShutdownScript(w *fw.Worker, i int, r *fw.Rand, backlog int) {
 	// the registration was accepted and queued long before the shutdown: the callback goroutine must have processed it
 	processed := false
 	for _, d := range s.tr.Dequeued() {
-		if d.Kind == "register" && s.tr.HandleID(d.Handle) == 2 {
+		if d.Kind == "register" && d.ID == 2 {
 			processed = true
 		}
 	}
